@@ -9,7 +9,7 @@ AUDIT = "OxyModel/Audit/C11.lean"
 THEOREMS = ["C11.C11_url_roundtrip", "C11.C11_cookie_wire", "C11.C11_roundtrip_raw_partial", "C11.C11_raw_counterexample",
             "C11.C11_roundtrip_hash", "C11.C11_roundtrip_aes", "C11.C11_roundtrip_fallback", "C11.C11_roundtrip_codec",
             "C11.C11_roundtrip", "C11.C11_key_rotation", "C11.C11_pinned_regardless_of_rotation", "C11.C11_never_outside_pool",
-            "C11.C11_served_in_pool", "C11.C11_stale", "C11.C11_absent_or_malformed", "C11.C11_forged", "C11.C11_expired",
+            "C11.C11_served_in_pool", "C11.C11_stale", "C11.C11_stale_none", "C11.C11_stale_rebalanced", "C11.C11_no_steal_raw", "C11.C11_absent_or_malformed", "C11.C11_forged", "C11.C11_expired",
             "C11.C11_degrades", "C11.C11_fresh_cookie_pins", "C11.C11_pool_invariant", "Sticky.symCipher_ideal"]
 RACE = False
 MAX_REPORTS = 1000
@@ -19,7 +19,10 @@ RULE = ("scenario = one balancer (rr or rebalancer) with a sticky session of a r
         "clock advances. non-trivial = at least one request pinned by a cookie and at least one degraded request that got a fresh cookie")
 ASSUMPTIONS = [
     "net/url Parse/String and net/http cookie sanitising are modelled (Model/StickyURL.lean, Model/Sticky.lean) and validated by the differential run, not verified",
-    "AES-GCM is an ideal AEAD (Cipher.Ideal is a hypothesis of the theorems); the FNV-1a hash is collision-free on the pool (hypothesis)",
+    "AES-GCM is an ideal AEAD (Cipher.Ideal is a hypothesis of the theorems); authenticity is stated up to Cipher.same (two cookie strings no key tells apart): base64.RawURLEncoding.DecodeString is not strict, so strings differing only in unused trailing bits are the same cookie",
+    "the FNV-1a hash is collision-free on the pool (hypothesis of Good / Unfound)",
+    "fallback chains: the no-steal conjunct of Good (.fallback from to) - `from` does not claim the value minted by `to` for another server - is discharged for AES->AES (C11_key_rotation) and for from=raw over ':'-free values (C11_no_steal_raw); it stays an explicit hypothesis for from=hash (no collision across salts/codecs) and for from=AES over a non-AES `to` (the value is not an encoding of a minted cookie)",
+    "URL round trip is proved for scheme://[user[:pw]@]host|[ip-literal][:port][/path][?query] (C11_url_roundtrip); IPv6 zones, fragments, opaque and scheme-less URLs keep RoundTrip as a decidable hypothesis",
     "the rebalancer variant runs with healthy backends only (weights never re-rated); its sticky path is the same machine as the bare balancer's",
     "the client echoes the name=value pair of the Set-Cookie line verbatim",
     "int64 overflow of a forged expiry (|exp| near 2^63) is unmodelled; generator stays below 10^12",
@@ -512,11 +515,11 @@ MANIFEST = {
              "including a transcription of net/url Parse/String and of net/http's cookie sanitising: C11_roundtrip (every codec and fallback chain pins the "
              "cookie it mints, hypotheses explicit: URL round trip, hash collision-freedom on the pool, ideal AEAD, non-expiry, value survives the cookie wire), "
              "C11_url_roundtrip and C11_cookie_wire discharge two of those hypotheses for whole classes, C11_pinned_regardless_of_rotation, "
-             "C11_never_outside_pool / C11_served_in_pool, C11_degrades + C11_bad_cookie_not_found + C11_fresh_cookie_pins. C11_raw_counterexample proves the recorded "
+             "C11_never_outside_pool / C11_served_in_pool, C11_degrades with C11_absent_or_malformed / C11_forged / C11_expired / C11_stale_none (composed: C11_stale_rebalanced) + C11_fresh_cookie_pins, C11_pool_invariant. C11_raw_counterexample proves the recorded "
              "known finding (RawValue cookie of a URL containing ';' does not survive http.SetCookie). The model is tied to the code by a differential run of the "
              "real StickySession + RoundRobin/Rebalancer through net/http against the compiled model on generated scenarios."),
     "note": ("Trusted: Lean kernel; propext/Classical.choice/Quot.sound; net/url and net/http cookie code is modelled and validated only by the differential run; "
-             "ideal-AEAD and hash collision-freedom are hypotheses; rebalancer exercised with healthy backends only. Known finding (open): RawValue cookies lose "
+             "ideal-AEAD (authenticity up to base64 non-strictness, Cipher.same) and hash collision-freedom are hypotheses; the no-steal condition of fallback chains is discharged for AES->AES and raw->* and is a hypothesis for hash->* and AES->non-AES; URL round trip proved for absolute URLs with userinfo, port, IP-literal host, any path bytes and query (hypothesis only for zones/fragments/opaque URLs); rebalancer exercised with healthy backends only. Known finding (open): RawValue cookies lose "
              "bytes such as ';' in http.SetCookie, so such a server is not pinned (C11_roundtrip_raw_partial excludes it, C11_raw_counterexample proves it)."),
     "technique": "Lean 4 proof over executable model (codecs as data, AEAD/hash as hypotheses) + differential correspondence through net/http with the real sticky session",
 }
